@@ -1,12 +1,22 @@
 """Prints the prompt given to an independent seeding sub-agent: only the property text and a scratch worktree.
 usage: python3 lib/seedprompt.py C05 [n_changes]"""
 import json, sys
+import glob, os
 pid = sys.argv[1]; n = int(sys.argv[2]) if len(sys.argv) > 2 else 3
+tag = sys.argv[3] if len(sys.argv) > 3 else 'seed'     # worktree /tmp/<tag>_<ID>, output /tmp/<tag>_<ID>_out
+prev = []
+for d in sorted(glob.glob(f'/verif/seeded/{pid}-*')):
+    try:
+        m = json.load(open(os.path.join(d, 'meta.json')))
+        prev.append('- ' + ' '.join(str(m.get('breaks', '')).split())[:260] + ' (files: ' + ', '.join(m.get('files_changed', [])) + ')')
+    except Exception:
+        pass
 for l in open('/verif/properties.jsonl'):
     p = json.loads(l)
     if p['id'] == pid: break
 files = ', '.join(p['anchors']['files'])
-print(f"""You are testing how robust a Python library's behaviour is against subtle regressions. The library is thermosteam (a thermodynamic engine used by BioSTEAM); you have your own scratch git worktree of it at /tmp/seed_{pid} (work ONLY there and under /tmp/seed_{pid}_out; never touch /repo or /verif, and do not read anything under /verif). Run Python as `cd /tmp/seed_{pid} && PYTHONPATH=/tmp/seed_{pid} PYTHONHASHSEED=0 PYTHONWARNINGS=ignore /venv/bin/python …` (no network; a harmless `WARNING conda.cli.condarc` line may be printed). No biosteam is installed; user-defined chemicals can be made without the database, e.g. `tmo.Chemical('A_', search_db=False, MW=16., Hf=-1024., Cn=64., phase='l', default=True)`; many database chemicals (Water, Ethanol, …) also load offline.
+AVOID = ("Changes of this kind that OTHER testers have already tried (do not repeat them; aim at other functions, other clauses of the property, other mechanisms such as caches, aliasing, error paths, rarely used argument combinations):\n" + "\n".join(prev) + "\n\n") if prev and tag != "seed" else ""
+print(f"""You are testing how robust a Python library's behaviour is against subtle regressions. The library is thermosteam (a thermodynamic engine used by BioSTEAM); you have your own scratch git worktree of it at /tmp/{tag}_{pid} (work ONLY there and under /tmp/{tag}_{pid}_out; never touch /repo or /verif, and do not read anything under /verif). Run Python as `cd /tmp/{tag}_{pid} && PYTHONPATH=/tmp/{tag}_{pid} PYTHONHASHSEED=0 PYTHONWARNINGS=ignore /venv/bin/python …` (no network; a harmless `WARNING conda.cli.condarc` line may be printed). No biosteam is installed; user-defined chemicals can be made without the database, e.g. `tmo.Chemical('A_', search_db=False, MW=16., Hf=-1024., Cn=64., phase='l', default=True)`; many database chemicals (Water, Ethanol, …) also load offline.
 
 Here is a semantic property the library is supposed to satisfy:
 
@@ -15,11 +25,11 @@ Statement: {p['statement']}
 Quantified over: {p['quantifier']['text']}
 (Relevant code: {files}.)
 
-Task: produce {n} different, realistic source changes to thermosteam (each a small patch a developer could plausibly make by mistake while refactoring, "simplifying" or "optimising"), each of which BREAKS this property while the library still imports and the existing test suite still passes. Prefer changes that need something specific to manifest — a particular interleaving or multi-step sequence of operations, an aliasing between objects, an unusual but legitimate input (zero flows, a chemical absent from one package, a particular phase, a cache that must first fill up, a particular specification pair), or two cooperating sites that each look fine alone — NOT ones that any ordinary use would expose at once. The changes should break different clauses of the property / live in different functions.
+{AVOID}Task: produce {n} different, realistic source changes to thermosteam (each a small patch a developer could plausibly make by mistake while refactoring, "simplifying" or "optimising"), each of which BREAKS this property while the library still imports and the existing test suite still passes. Prefer changes that need something specific to manifest — a particular interleaving or multi-step sequence of operations, an aliasing between objects, an unusual but legitimate input (zero flows, a chemical absent from one package, a particular phase, a cache that must first fill up, a particular specification pair), or two cooperating sites that each look fine alone — NOT ones that any ordinary use would expose at once. The changes should break different clauses of the property / live in different functions.
 
 For each change i = 1..{n}:
-1. start from a clean worktree (`git -C /tmp/seed_{pid} checkout -- .`), make the change, and save it as /tmp/seed_{pid}_out/<i>/patch.diff (`git -C /tmp/seed_{pid} diff > …`; create the directories);
-2. write /tmp/seed_{pid}_out/<i>/demo.py: a small standalone program that exits 0 and prints PASS when the property holds and exits 1 printing what went wrong when it does not; it must FAIL with your change and PASS without it (verify both, with PYTHONPATH pointing at the worktree);
-3. verify the existing tests still pass with the change: `cd /tmp/seed_{pid} && /venv/bin/python -m pytest -q -p no:cacheprovider --timeout=900 --continue-on-collection-errors 2>&1 | tail -8` — the baseline has exactly 5 known failures (tests/test_chemical.py::test_chemical_creation, tests/test_network.py::test_disconnect, two BubblePointBeta doctests, the FlashPackage doctest) and 210 passes; with your change it must be the same 5 failures and 210 passes (the run takes about 20-40 s);
-4. write /tmp/seed_{pid}_out/<i>/notes.md: which clause of the property it breaks, what is needed for it to manifest, and the commands you ran with their outcomes.
-Do NOT use `git stash` (stashes are shared between worktrees): switch between the clean tree and your change with `git diff > patch.diff; git checkout -- .; git apply patch.diff`. Finish with a clean worktree (`git -C /tmp/seed_{pid} checkout -- .`). Your final message: a short list of the changes (file/function, what manifests it) and confirmation of the verification steps for each.""")
+1. start from a clean worktree (`git -C /tmp/{tag}_{pid} checkout -- .`), make the change, and save it as /tmp/{tag}_{pid}_out/<i>/patch.diff (`git -C /tmp/{tag}_{pid} diff > …`; create the directories);
+2. write /tmp/{tag}_{pid}_out/<i>/demo.py: a small standalone program that exits 0 and prints PASS when the property holds and exits 1 printing what went wrong when it does not; it must FAIL with your change and PASS without it (verify both, with PYTHONPATH pointing at the worktree);
+3. verify the existing tests still pass with the change: `cd /tmp/{tag}_{pid} && /venv/bin/python -m pytest -q -p no:cacheprovider --timeout=900 --continue-on-collection-errors 2>&1 | tail -8` — the baseline has exactly 5 known failures (tests/test_chemical.py::test_chemical_creation, tests/test_network.py::test_disconnect, two BubblePointBeta doctests, the FlashPackage doctest) and 210 passes; with your change it must be the same 5 failures and 210 passes (the run takes about 20-40 s);
+4. write /tmp/{tag}_{pid}_out/<i>/notes.md: which clause of the property it breaks, what is needed for it to manifest, and the commands you ran with their outcomes.
+Do NOT use `git stash` (stashes are shared between worktrees): switch between the clean tree and your change with `git diff > patch.diff; git checkout -- .; git apply patch.diff`. Finish with a clean worktree (`git -C /tmp/{tag}_{pid} checkout -- .`). Your final message: a short list of the changes (file/function, what manifests it) and confirmation of the verification steps for each.""")
